@@ -28,6 +28,7 @@ HasEmptyLit(g, n, fuel) ==
 RECURSIVE NullableWith(_, _, _), YieldsWith(_, _, _)
 YieldsWith(g, n, NP) ==
   CASE n.op = "lit" -> IsEmptyLit(n)
+    [] n.op = "ref" -> n.t = "EOF"
     [] n.op = "cap" -> NullableWith(g, n.kid, NP)
     [] n.op = "seq" -> (\A i \in 1..Len(n.kids) : NullableWith(g, n.kids[i], NP)) /\ (\E i \in 1..Len(n.kids) : YieldsWith(g, n.kids[i], NP))
     [] n.op = "alt" -> \E i \in 1..Len(n.kids) : NullableWith(g, n.kids[i], NP) /\ YieldsWith(g, n.kids[i], NP)
@@ -39,7 +40,8 @@ YieldsWith(g, n, NP) ==
     [] OTHER -> FALSE
 NullableWith(g, n, NP) ==
   CASE n.op = "lit" -> IsEmptyLit(n)
-    [] n.op \in {"ref", "neg", "user", "user2", "user3"} -> FALSE
+    [] n.op = "ref" -> n.t = "EOF"        \* the end-of-input token is matched, and handed back as a value, without being consumed
+    [] n.op \in {"neg", "user", "user2", "user3"} -> FALSE
     [] n.op = "look" -> TRUE
     [] n.op = "seq" -> \A i \in 1..Len(n.kids) : NullableWith(g, n.kids[i], NP)
     [] n.op = "alt" -> \E i \in 1..Len(n.kids) : NullableWith(g, n.kids[i], NP)
